@@ -25,6 +25,23 @@ pub fn content(start: u64, n: usize) -> Vec<u8> {
     (0..n as u64).map(|k| content_byte(start.wrapping_add(k))).collect()
 }
 
+const BOUNDARY_LIKE: &[u8] = b"\r\n--B\r\nContent-Range: bytes 0-9/10\r\n\r\nxx\r\n--B--\r\n\r\n--B\r\n";
+
+/// Content mode 1: entity bytes that look like multipart delimiters and part headers (with
+/// position-hash bytes mixed in so that shifts stay visible).
+#[inline]
+pub fn content_byte_mode(mode: u8, i: u64) -> u8 {
+    if mode == 1 && i % 64 < 48 {
+        BOUNDARY_LIKE[(i % 64) as usize % BOUNDARY_LIKE.len()]
+    } else {
+        content_byte(i)
+    }
+}
+
+pub fn content_mode(mode: u8, start: u64, n: usize) -> Vec<u8> {
+    (0..n as u64).map(|k| content_byte_mode(mode, start.wrapping_add(k))).collect()
+}
+
 pub const MAX_CHUNK: u64 = 65_536;
 
 #[derive(Clone, Debug, PartialEq, Eq, Hash)]
@@ -42,6 +59,9 @@ pub struct ChunkPlan {
     /// Poll k of a stream returns Pending (after waking itself) iff bit (k % period) is set.
     pub pend_mask: u32,
     pub pend_period: u8,
+    /// the stream reports an exact `size_hint` of what it is really going to yield (like
+    /// `stream::iter`); default: the trait's (0, None)
+    pub hint_exact: bool,
 }
 
 #[derive(Clone, Debug, PartialEq, Eq, Hash)]
@@ -81,6 +101,8 @@ pub struct EntSpec {
     /// wall clock has crossed into the next second: exposes code that reads the clock twice around
     /// a callback. Workload shaping only - no verdict depends on time.
     pub slow_calls: bool,
+    /// 0 = position hash, 1 = bytes that look like multipart delimiters
+    pub content_mode: u8,
 }
 
 impl EntSpec {
@@ -106,7 +128,9 @@ impl EntSpec {
             "chunk_sizes": sizes,
             "pend_mask": self.plan.pend_mask,
             "pend_period": self.plan.pend_period,
+            "hint_exact": self.plan.hint_exact,
             "slow_calls": self.slow_calls,
+            "content_mode": self.content_mode,
             "fault": self.fault.as_ref().map(|f| json!({
                 "call": f.call, "at": u64_to_json(f.at),
                 "kind": match f.kind { FaultKind::EarlyEnd => "early_end", FaultKind::Err => "err",
@@ -164,9 +188,11 @@ impl EntSpec {
                 sizes,
                 pend_mask: v["pend_mask"].as_u64().unwrap_or(0) as u32,
                 pend_period: v["pend_period"].as_u64().unwrap_or(0) as u8,
+                hint_exact: v["hint_exact"].as_bool().unwrap_or(false),
             },
             fault,
             slow_calls: v["slow_calls"].as_bool().unwrap_or(false),
+            content_mode: v["content_mode"].as_u64().unwrap_or(0) as u8,
         }
     }
 }
@@ -214,6 +240,25 @@ struct RangeStream {
 
 impl Stream for RangeStream {
     type Item = Result<Bytes, BoxError>;
+
+    fn size_hint(&self) -> (usize, Option<usize>) {
+        if !self.spec.plan.hint_exact {
+            return (0, None);
+        }
+        if self.finished {
+            return (0, Some(0));
+        }
+        // number of items is unknown (chunking), but "no more items" is known exactly
+        let real_end = match &self.fault {
+            Some(f) if matches!(f.kind, FaultKind::EarlyEnd) => f.at.min(self.len),
+            _ => self.len,
+        };
+        if self.done >= real_end && !matches!(self.fault.as_ref().map(|f| &f.kind), Some(FaultKind::Err) | Some(FaultKind::ExtraChunk)) {
+            (0, Some(0))
+        } else {
+            (1, Some((real_end - self.done).max(1) as usize + 1))
+        }
+    }
 
     fn poll_next(self: Pin<&mut Self>, cx: &mut Context<'_>) -> Poll<Option<Self::Item>> {
         let this = Pin::into_inner(self);
@@ -297,7 +342,7 @@ impl Stream for RangeStream {
                 // empty chunk before the fault point: fine
             }
         }
-        let mut v = content(this.start + this.done, n as usize);
+        let mut v = content_mode(this.spec.content_mode, this.start + this.done, n as usize);
         if junk {
             v.push(0xEE);
             this.extra_sent = true;
